@@ -261,10 +261,10 @@ End Arcs.
 (* create_arcs, any starting subgraph                                   *)
 (* ------------------------------------------------------------------ *)
 
-Theorem arcs_general : forall (zero top thr one : Z) (k n : nat) (w : nat -> nat -> Z) (g : @knn Z),
+Theorem arcs_acc_general : forall (zero top thr one : Z) (k n : nat) (w : nat -> nat -> Z) (g : @knn Z),
   length (k_adj g) = n -> length (k_radius g) = n -> (zero <= k_gdens g)%Z ->
   (forall i j, i < n -> j < n -> i <> j -> (zero <= w i j < top)%Z) ->
-  forall g' maxd, create_arcs Z.ltb zero top thr one k n w g = (g', maxd) ->
+  forall g' maxd, create_arcs_acc Z.ltb zero top thr one k n w g = (g', maxd) ->
   let N := nbrs k n w in
   let rad i := last (map (w i) (N i)) zero in
   let M := Z.max (k_gdens g) (fold_right Z.max zero (map rad (seq 0 n))) in
@@ -280,7 +280,7 @@ Theorem arcs_general : forall (zero top thr one : Z) (k n : nat) (w : nat -> nat
   k_nclusters g' = k_nclusters g.
 Proof.
   intros zero top thr one k n w g Hadj Hrad Hgd Hw g' maxd Hca N rad M.
-  unfold create_arcs in Hca.
+  unfold create_arcs_acc in Hca.
   pose proof (arcs_fold_inv zero top k n w Hw g Hadj Hrad Hgd n (le_n n)) as Hinv.
   destruct (fold_left (arcs_node Z.ltb zero top k n w) (seq 0 n) (g, repeat zero k, repeat 0 (S k)))
     as [[g1 md] ns1].
@@ -299,6 +299,41 @@ Proof.
   - exact ai_maxd0.
   - repeat split; assumption.
 Qed.
+
+(* KNNSubgraph.create_arcs itself: the bound is reset first, so it is the largest radius whatever the graph held *)
+Lemma zmaxl_ge_zero (zero : Z) (l : list Z) : (zero <= fold_right Z.max zero l)%Z.
+Proof. induction l as [|a l IH]; cbn [fold_right]; lia. Qed.
+
+Theorem arcs_general : forall (zero top thr one : Z) (k n : nat) (w : nat -> nat -> Z) (g : @knn Z),
+  length (k_adj g) = n -> length (k_radius g) = n ->
+  (forall i j, i < n -> j < n -> i <> j -> (zero <= w i j < top)%Z) ->
+  forall g' maxd, create_arcs Z.ltb zero top thr one k n w g = (g', maxd) ->
+  let N := nbrs k n w in
+  let rad i := last (map (w i) (N i)) zero in
+  let M := fold_right Z.max zero (map rad (seq 0 n)) in
+  length (k_adj g') = n /\ length (k_radius g') = n /\
+  (forall i, i < n -> nth i (k_adj g') [] = N i ++ nth i (k_adj g) []) /\
+  (forall i, i < n -> nth i (k_radius g') zero = rad i) /\
+  (forall i, i < n -> nth i (k_nplat g') 0 = 0) /\
+  k_gdens g' = (if Z.ltb M thr then one else M) /\
+  length maxd = k /\
+  (forall l, nth l maxd zero = fold_right Z.max zero (map (fun i => nth l (map (w i) (N i)) zero) (seq 0 n))) /\
+  k_label g' = k_label g /\ k_dens g' = k_dens g /\ k_cost g' = k_cost g /\ k_pred g' = k_pred g /\
+  k_root g' = k_root g /\ k_plabel g' = k_plabel g /\ k_clabel g' = k_clabel g /\ k_order g' = k_order g /\
+  k_nclusters g' = k_nclusters g.
+Proof.
+  intros zero top thr one k n w g Hadj Hrad Hw g' maxd Hca N rad M.
+  unfold create_arcs in Hca.
+  pose proof (arcs_acc_general zero top thr one k n w (reset_gdens zero g) Hadj Hrad (Z.le_refl zero) Hw g' maxd Hca) as H.
+  cbn [reset_gdens k_label k_adj k_radius k_nplat k_dens k_cost k_pred k_root k_plabel k_clabel k_order k_gdens k_nclusters] in H.
+  fold N in H. fold rad in H.
+  replace (Z.max zero (fold_right Z.max zero (map rad (seq 0 n)))) with M in H
+    by (unfold M; pose proof (zmaxl_ge_zero zero (map rad (seq 0 n))); lia).
+  exact H.
+Qed.
+
+Lemma reset_gdens_init (zero : Z) labels : reset_gdens zero (knn_init zero labels) = knn_init zero labels.
+Proof. reflexivity. Qed.
 
 (* what the prepended list is: the min k (n-1) nearest other samples in stable order *)
 Theorem nbrs_props : forall (k n : nat) (w : nat -> nat -> Z) (i : nat), i < n ->
@@ -348,7 +383,7 @@ Proof.
   intros zero top thr one k n w labels Hlen Hw g' maxd Hca adj dl rad M.
   destruct (knn_init_fresh zero labels) as (Hal & Hrl & Hgd0 & Hadj0).
   destruct (arcs_general zero top thr one k n w (knn_init zero labels)
-              ltac:(lia) ltac:(lia) ltac:(lia) Hw g' maxd Hca)
+              ltac:(lia) ltac:(lia) Hw g' maxd Hca)
     as (_ & _ & Hadj & Hrad & _ & Hgd & Hml & Hmaxd & _).
   assert (Hadj' : forall i, i < n -> adj i = nbrs k n w i).
   { intros i Hi. unfold adj. rewrite (Hadj i Hi), Hadj0. apply app_nil_r. }
@@ -372,12 +407,11 @@ Proof.
       destruct (nbrs k 1 w i); [reflexivity|discriminate].
   - intros l. rewrite Hmaxd. f_equal. apply map_ext_in. intros i Hi. apply in_seq in Hi.
     unfold dl. rewrite Hadj' by lia. reflexivity.
-  - rewrite Hgd, Hgd0.
+  - rewrite Hgd.
     assert (HM : M = fold_right Z.max zero
                        (map (fun i => last (map (w i) (nbrs k n w i)) zero) (seq 0 n))).
     { unfold M. f_equal. apply map_ext_in. intros i Hi. apply in_seq in Hi. apply Hrad. lia. }
-    rewrite <- HM. pose proof (zmaxl_ge_init zero (map rad (seq 0 n))) as Hge. unfold zmaxl in Hge. fold M in Hge.
-    now rewrite Z.max_r by exact Hge.
+    rewrite <- HM. reflexivity.
 Qed.
 
 (* the stable tie order of the adjacency lists (earlier index wins among equal distances) *)
@@ -397,7 +431,7 @@ Proof.
   intros zero top thr one k n w labels Hlen Hw g' maxd Hca i Hi adj.
   destruct (knn_init_fresh zero labels) as (Hal & Hrl & Hgd0 & Hadj0).
   destruct (arcs_general zero top thr one k n w (knn_init zero labels)
-              ltac:(lia) ltac:(lia) ltac:(lia) Hw g' maxd Hca)
+              ltac:(lia) ltac:(lia) Hw g' maxd Hca)
     as (_ & _ & Hadj & _).
   assert (Hadj' : adj = nbrs k n w i).
   { unfold adj. rewrite (Hadj i Hi), Hadj0. apply app_nil_r. }
